@@ -38,7 +38,7 @@ VARIANTS = [
 OWS = " \t"
 
 # ---- header value domains: None = header absent, tuple = header lines -----
-XRI_Q = [None, ("9.9.9.9",), ("2001:db8::1",), ("10.0.0.1",), ("garbage",), ("",),
+XRI_Q = [None, ("9.9.9.9",), ("2001:db8::1",), ("10.0.0.1",), ("garbage",), ("",), ("9.9.9.300",), ("9.9.9.\xb2",),
          ("9.9.9.9, 8.8.8.8",), ("127.1",), ("9.9.9.9", "8.8.8.8")]
 XRI_T = XRI_Q + [("::ffff:7.7.7.7",), ("fe80::1%lo",), ("256.1.1.1",), ("9.9.9.9:80",),
                  ("[::1]",), ("localhost",), ("1" * 64,), ("1..2",), ("9.9.9.9\xe9",),
@@ -61,7 +61,7 @@ IPV_ALPHA = ["1", ".", ":", "a", "\x00"]
 IPV_EXTRA = ["9.9.9.9\x00", "\x00", "9.9.9.9\x00.example", "::1\x00", "1" * 64, "a" * 64,
              "1.2.3.4" + "." + "a" * 64, "\xe9", "9.9.9.9\xe9", "\u0663.1.1.1", " 9.9.9.9",
              "9.9.9.9 ", "9.9.9.9\n", "2001:db8::1", "2001:DB8::1", "::ffff:1.2.3.4",
-             "1.2.3.4.5", "256.1.1.1", "1.2.3.256", "01.2.3.4", "1.2.3", "0x7f.0.0.1",
+             "4.4.4.\xb2", "4.4.4\xad.4", "\uff14.4.4.4", "4\u3002" + "4.4.4", "1.2.3.4.5", "256.1.1.1", "1.2.3.256", "192.168.1.300", "999.999.999.999", "1.2.300.4", "01.2.3.4", "1.2.3", "0x7f.0.0.1",
              "[::1]", "::1]", "1.2.3.4:80", "1.2.3.4/8", "fe80::1%lo", "fe80::1%nosuchif",
              "1.2.3.4%lo", "localhost", "example.com", "", "-1", "1e3", "1:2:3:4:5:6:7:8",
              "1:2:3:4:5:6:7:8:9", "1:2:3:4:5:6:7", "12345::1", "g::1"]
@@ -96,6 +96,9 @@ def ip_class(s):
         return "valid"
     except ValueError:
         pass
+    m4 = re.fullmatch(r"([1-9][0-9]{0,2}|0)\.([1-9][0-9]{0,2}|0)\.([1-9][0-9]{0,2}|0)\.([1-9][0-9]{0,2}|0)", s)
+    if m4 and any(int(g) > 255 for g in m4.groups()):
+        return "invalid"         # four decimal parts, one above 255: no resolver calls that an address
     if _LEGACY.match(s) and len(s) < 40:
         return "either"
     return "invalid"
